@@ -277,6 +277,28 @@ def build(tier, repo):
                          % (pf.norm_expr(tgt)[:40], root, how), "work on a copy (+f)", m.seg(pf.enclosing_stmt(node))[:80])
         if not seen:
             r6.ok("op.%s:op not written" % mname, m.where(fn, fn))
+    # the epigraph expansion of a constraint works on aliases of the constraint's own function (faff._linear IS self._f._linear):
+    # nothing reachable from the constraint may be written in place
+    for cq in ("constraint._aslinearineq",):
+        fn = m.funcs.get(cq)
+        if fn is None:
+            raise AnalysisError("%s not found" % cq)
+        fe = FunctionEffects(fn, m, containers={"self"}, protected={"self"})
+        fe.deep_attrs = True
+        fe.alias = {}
+        fe.sinks = []
+        fe._run()
+        seen = set()
+        for node, root, how, tgt in fe.sinks:
+            key = "%s:write to the constraint via %s" % (cq, pf.norm_expr(node)[:60])
+            if key in seen:
+                continue
+            seen.add(key)
+            r6.violation(key, m.where(node, fn),
+                         "`%s` may share storage with the constraint's own function (%s) and is modified in place (%s): every solve() rewrites the "
+                         "user's constraint" % (pf.norm_expr(tgt)[:40], root, how), "build a new function (faff + ..)", m.seg(pf.enclosing_stmt(node))[:80])
+        if not seen:
+            r6.ok("%s:constraint not written" % cq, m.where(fn, fn))
     r6.require(5)
     r7 = chk.rule("C13-R7", "per-variable records are distinct objects: no `dict.fromkeys(.., <mutable>)` / `[<mutable>] * n` sharing one record between keys",
                   "the bookkeeping of one variable is independent of the others")
